@@ -471,6 +471,14 @@ func decodePkgsLock(b []byte) (string, error) {
 	if err != nil {
 		return "", err
 	}
+	// the entry type ("Direct", "Transitive", "CentralTransitive", "Project") is not part of the extractor's struct: the harness reads it
+	// on its own, for the Spec (a "Project" entry is a project reference, not a NuGet package)
+	var types struct {
+		Dependencies map[string]map[string]struct {
+			Type string `json:"type"`
+		} `json:"dependencies"`
+	}
+	_ = json.Unmarshal(b, &types)
 	fws := make([]string, 0, len(p.Dependencies))
 	for k := range p.Dependencies {
 		fws = append(fws, k)
@@ -485,7 +493,7 @@ func decodePkgsLock(b []byte) (string, error) {
 		sort.Strings(names)
 		xs := make([]string, len(names))
 		for i, k := range names {
-			xs[i] = hexs(k) + ":" + hexs(p.Dependencies[fw][k].Resolved)
+			xs[i] = hexs(k) + ":" + hexs(p.Dependencies[fw][k].Resolved) + ":" + hexs(types.Dependencies[fw][k].Type)
 		}
 		parts = append(parts, hexs(fw)+"="+strings.Join(xs, ","))
 	}
@@ -499,7 +507,7 @@ func genPkgsLock(r *rand.Rand) gcase {
 	n := nrec(r)
 	nfw := 1
 	cls := "wf-1fw"
-	if r.Intn(3) == 0 {
+	if r.Intn(2) == 0 {
 		nfw = 2 + r.Intn(2)
 		cls = "wf-multifw-disjoint"
 	}
@@ -508,14 +516,11 @@ func genPkgsLock(r *rand.Rand) gcase {
 	fws := make([]jobj, nfw)
 	var exp []nv
 	used := map[string]bool{}
-	shared := false
-	for i := 0; i < n; i++ {
-		name := word(r, upper, 1, 1) + word(r, lower+upper+digits+".", 1, 18) + word(r, lower, 1, 1)
-		if used[strings.ToLower(name)] {
-			continue
-		}
-		used[strings.ToLower(name)] = true
-		ver := word(r, digits, 1, 2) + "." + word(r, digits, 1, 2) + "." + word(r, digits, 1, 3) + pick(r, []string{"", "", "-preview.1", ".4"})
+	shared, sharedDiff, project := false, false, false
+	mkVer := func() string {
+		return word(r, digits, 1, 2) + "." + word(r, digits, 1, 2) + "." + word(r, digits, 1, 3) + pick(r, []string{"", "", "-preview.1", ".4"})
+	}
+	entry := func(ver string) jobj {
 		e := jobj{{"type", pick(r, []string{"Direct", "Transitive", "CentralTransitive"})}, {"resolved", ver}, {"contentHash", word(r, lower+upper+digits+"+/", 30, 30) + "=="}}
 		if r.Intn(3) == 0 {
 			e = append(jobj{{"requested", "[" + ver + ", )"}}, e...)
@@ -523,16 +528,71 @@ func genPkgsLock(r *rand.Rand) gcase {
 		if r.Intn(3) == 0 {
 			e = append(e, jkv{"dependencies", jobj{{"System.Memory", "4.5.4"}, {"resolved", "9.9.9"}}})
 		}
+		return e
+	}
+	for i := 0; i < n; i++ {
+		name := word(r, upper, 1, 1) + word(r, lower+upper+digits+".", 1, 18) + word(r, lower, 1, 1)
+		if used[strings.ToLower(name)] {
+			continue
+		}
+		used[strings.ToLower(name)] = true
+		ver := mkVer()
+		e := entry(ver)
 		k := r.Intn(nfw)
 		fws[k] = append(fws[k], jkv{name, e})
 		exp = append(exp, nv{name, ver})
-		if nfw > 1 && r.Intn(5) == 0 { // the same package, same version, needed by a second target framework: still ONE package
-			k2 := (k + 1) % nfw
-			fws[k2] = append(fws[k2], jkv{name, e})
-			shared = true
+		// NuGet resolves every target framework on its own: the same id may be needed by several frameworks, at the SAME version
+		// (one package) or at DIFFERENT versions (one package per distinct version)
+		for k2 := 0; k2 < nfw; k2++ {
+			if k2 == k || r.Intn(3) != 0 {
+				continue
+			}
+			if r.Intn(2) == 0 {
+				fws[k2] = append(fws[k2], jkv{name, e})
+				shared = true
+			} else {
+				v2 := mkVer()
+				for v2 == ver {
+					v2 = mkVer()
+				}
+				fws[k2] = append(fws[k2], jkv{name, entry(v2)})
+				dup := false
+				for _, x := range exp {
+					dup = dup || (x.name == name && x.ver == v2)
+				}
+				if !dup {
+					exp = append(exp, nv{name, v2})
+				}
+				sharedDiff = true
+			}
 		}
 	}
-	if shared {
+	// project references ("type": "Project", no "resolved"): not NuGet packages, nothing to report for them
+	if r.Intn(6) == 0 {
+		for k := 1 + r.Intn(2); k > 0; k-- {
+			name := pick(r, []string{"mylib", "Company.Core", "shared.contracts", "App.Tests"})
+			if used[strings.ToLower(name)] {
+				continue
+			}
+			used[strings.ToLower(name)] = true
+			e := jobj{{"type", "Project"}}
+			if r.Intn(2) == 0 {
+				e = append(e, jkv{"dependencies", jobj{{"Newtonsoft.Json", "[13.0.1, )"}}})
+			}
+			for f := 0; f < nfw; f++ {
+				if f == 0 || r.Intn(2) == 0 {
+					fws[f] = append(fws[f], jkv{name, e})
+				}
+			}
+			project = true
+		}
+	}
+	switch {
+	case project:
+		cls = "wf-project"
+	case sharedDiff:
+		cls = "wf-multifw-shared-diffver"
+	case shared:
 		cls = "wf-multifw-shared"
 	}
 	deps := jobj{}
